@@ -10,6 +10,7 @@ import ALV.Lemmas.C09Stft
 import ALV.Lemmas.C09StftRun
 import ALV.Lemmas.C09Err
 import ALV.Lemmas.C09Wnd
+import ALV.Lemmas.C09R4
 import Mathlib.Algebra.Order.Field.Rat
 import ALV.Common.Audit
 
@@ -694,15 +695,15 @@ theorem ola_obj_eq_spec (size hop : Nat) (hs : 0 < size) (h0 : 0 < hop) (hh : ho
       (overlapAddListObj Bs size? hop? p normalize).out =
           olaSpec (gainSpec size hop normalize w?) (wndSpec size w?) size hop Bs ∧
       (overlapAddListObj Bs size? hop? p normalize).err = none) ∧
-    (∀ e, resolveOlaObj size p = .error e →
+    (∀ e, resolveOlaObj size p = .error e → e ≠ .windowItems →
       overlapAddListObj Bs size? hop? p normalize = ⟨[], some e⟩) := by
   constructor
   · intro w? hres hw
     rw [overlapAddListObj_eq Bs size? hop? p normalize size hsz w? hres]
     exact ola_eq_spec size hop hs h0 hh Bs hB size? hop? hsz hhop (ofResolved w?) w?
       (resolveWnd_ofResolved size w?) hw normalize
-  · intro e he
-    exact overlapAddListObj_err Bs size? hop? p normalize size hsz e he
+  · intro e he hne
+    exact overlapAddListObj_err Bs size? hop? p normalize size hsz e he hne
 
 /-- **C09.1, callable iterable windows** (the corollary a changed resolution rule breaks): an
 object that is callable, not a `Stream`, and whose call returns `size` numbers `w` gives the sum
@@ -864,6 +865,423 @@ example : ((stftPlan [("size", .int 4), ("ola_hop", .int 1), ("ola_size", .int 8
     = some (.ok ⟨.int 8, .int 1, .obj "w", .int 0⟩) := by decide
 example : ((stftPlan [("size", .int 4), ("ola_latency", .int 1)] []).toOption.map (bindOla ·.olaParams))
     = some (.error "latency") := by decide
+
+/-! ## round 4: what the driver runs and no statement reached; zero blocks; histories of partials -/
+
+section r4_trace
+variable {K : Type} [Mul K] [OfNat K 0]
+
+/-- **C09.4c** "the wrapper multiplies each block by the analysis window before the user function",
+for the analysis window given as an OBJECT and in the indexed words of C08: with the window object
+resolving to `w` (`None` or `size` numbers), the call trace of `blk_gen` has one row per block of
+the closed form `blocksClosed` (block k = samples `k*hop … k*hop+size-1`, the last one zero padded),
+every row is the trace of the processing chain started on `B_k * w`, and what `func` receives in
+row k is `transform(before(B_k * w))` — `funcInputSpec`.  A window object that does not resolve
+raises before any step is called. -/
+theorem stft_func_receives (size hop : Nat) (hs : 0 < size) (h0 : 0 < hop) (hop? : Option Nat)
+    (hhop : hop?.getD size = hop) (wa : PyWnd K) (st : Stages K) (sig : List K) :
+    (∀ w, resolveStftObj size wa = .ok w →
+      blkGenTraceObj size hop? wa st sig =
+        (blocksClosed size hop 0 sig).map (fun B => processTrace (st.funcs size) (windowed w B)) ∧
+      (blkGenTraceObj size hop? wa st sig).map
+          (fun t => (t.find? (fun e => e.1 = "func")).map (·.2)) =
+        (funcInputSpec (blocksClosed size hop 0) w (st.before.getD id)
+          (match st.transform with | some f => (f · size) | none => id) sig).map some ∧
+      blkGenTraceObj size hop? wa st sig = blkGenTrace size hop? (ofResolved w) st sig) ∧
+    (∀ e, resolveStftObj size wa = .error e →
+      blkGenTraceObj size hop? wa st sig = [] ∧ blkGenObj size hop? wa st sig = .error e) := by
+  constructor
+  · intro w hres
+    have e1 : blkGenTraceObj size hop? wa st sig =
+        (blocksClosed size hop 0 sig).map (fun B => processTrace (st.funcs size) (windowed w B)) := by
+      simp only [blkGenTraceObj, hres, hhop]
+      rw [ALV.Props.C08.blocks_eq_closed size hop hs h0]
+    refine ⟨e1, ?_, (blkGenObj_eq size hop? wa st sig w hres).2⟩
+    rw [e1]
+    simp only [funcInputSpec, List.map_map]
+    apply List.map_congr_left
+    intro B _
+    simp only [Function.comp, processTrace_func, funcInput, windowed, Option.map_some]
+    cases w <;> rfl
+  · intro e he
+    simp only [blkGenTraceObj, blkGenObj, he, and_self]
+
+end r4_trace
+
+section r4_plan
+
+/-- **C09.5g** what `blk_gen` is called with (`blk_params`): `size`, `hop` (`None` when omitted),
+the ANALYSIS window `wnd` (`None` when omitted — `ola_wnd` never gets here), and the four steps,
+each the merged keyword or the marker `NotSpecified` (then `blk_gen` imports the numpy default);
+the strategy is the keyword `ola` or `overlap_add` itself. -/
+theorem stft_blk_params (kwparams kwargs : Dict) (plan : Plan)
+    (h : stftPlan kwparams kwargs = .ok plan) :
+    ∀ merged, merged = dictUpdate kwparams kwargs →
+    plan.blkParams =
+      [("size", (dictGet merged "size").getD .none), ("hop", (dictGet merged "hop").getD .none),
+       ("wnd", (dictGet merged "wnd").getD .none),
+       ("transform", (dictGet merged "transform").getD notSpecified),
+       ("inverse_transform", (dictGet merged "inverse_transform").getD notSpecified),
+       ("before", (dictGet merged "before").getD notSpecified),
+       ("after", (dictGet merged "after").getD notSpecified)] ∧
+    plan.ola = (dictGet merged "ola").getD defaultOla := by
+  intro merged hm
+  subst hm
+  unfold stftPlan at h
+  generalize dictUpdate kwparams kwargs = merged at h ⊢
+  cases hsz : dictGet merged "size" with
+  | none => simp [hsz] at h
+  | some size =>
+    simp only [hsz] at h
+    split at h
+    · simp at h
+    · simp only [dictPop] at h
+      split at h
+      · simp at h
+      · simp only [Except.ok.injEq] at h
+        subst h
+        simp (disch := decide) only [dictGet_filter_ne, hsz, List.cons_append, List.nil_append,
+          Option.getD_some, and_self]
+
+/-- **C09.5h** the rejections, exactly: a keyword set is refused only
+* without `size` (TypeError),
+* with integer `hop > size` (the only ValueError),
+* with `hop=None` given explicitly (`None > size` is a TypeError),
+* with an `ola_<k>` option although `ola=None` (TypeError naming the option),
+* with a keyword that is neither one of the eight names nor an `ola_` option (TypeError naming it). -/
+theorem stft_plan_rejects (kwparams kwargs : Dict) (e : PlanErr)
+    (h : stftPlan kwparams kwargs = .error e) :
+    ∀ merged, merged = dictUpdate kwparams kwargs →
+    (e = .missingSize ∧ dictGet merged "size" = none ∧ e.kind = "TypeError") ∨
+    (e = .hopGtSize ∧ e.kind = "ValueError" ∧ ∃ hh s, dictGet merged "hop" = some (.int hh) ∧
+        dictGet merged "size" = some (.int s) ∧ s < hh) ∨
+    (e = .hopNotComparable ∧ e.kind = "TypeError" ∧ dictGet merged "hop" = some .none) ∨
+    (∃ k v k', e = .olaOptionWithoutOla k ∧ e.kind = "TypeError" ∧ (k, v) ∈ merged ∧ k = "ola_" ++ k' ∧
+        dictGet merged "ola" = some .none) ∨
+    (∃ k v, e = .unknownKey k ∧ e.kind = "TypeError" ∧ (k, v) ∈ merged ∧
+        k ∉ ["size", "hop", "wnd", "ola", "transform", "inverse_transform", "before", "after"] ∧
+        ∀ k', k ≠ "ola_" ++ k') := by
+  intro merged hm
+  subst hm
+  unfold stftPlan at h
+  generalize dictUpdate kwparams kwargs = merged at h ⊢
+  cases hsz : dictGet merged "size" with
+  | none =>
+    simp only [hsz, Except.error.injEq] at h
+    subst h
+    exact Or.inl ⟨rfl, rfl, rfl⟩
+  | some size =>
+    simp only [hsz] at h
+    split at h
+    · rename_i e' hchk
+      simp only [Except.error.injEq] at h
+      subst h
+      split at hchk
+      · rename_i hh s hhop
+        by_cases hgt : hh > s
+        · simp only [hgt, if_true, Except.error.injEq] at hchk
+          subst hchk
+          exact Or.inr (Or.inl ⟨rfl, rfl, hh, s, hhop, rfl, hgt⟩)
+        · simp [hgt] at hchk
+      · rename_i hhop
+        simp only [Except.error.injEq] at hchk
+        subst hchk
+        exact Or.inr (Or.inr (Or.inl ⟨rfl, rfl, hhop⟩))
+      · simp at hchk
+    · simp only [dictPop] at h
+      split at h
+      · rename_i e' hr
+        simp only [Except.error.injEq] at h
+        subst h
+        rcases routeRest_error _ _ _ _ hr with ⟨k, v, k', he, hm, hk, ho⟩ | ⟨k, v, he, hm, hk⟩
+        · subst he
+          have hm' := (mem_restKws merged (k, v)).1 hm
+          refine Or.inr (Or.inr (Or.inr (Or.inl ⟨k, v, k', rfl, rfl, hm'.1, hk, ?_⟩)))
+          simp (disch := decide) only [dictGet_filter_ne] at ho
+          cases ho' : dictGet merged "ola" with
+          | none => simp [ho', defaultOla] at ho
+          | some o => simp only [ho', Option.getD_some] at ho; rw [ho]
+        · subst he
+          have hm' := (mem_restKws merged (k, v)).1 hm
+          refine Or.inr (Or.inr (Or.inr (Or.inr ⟨k, v, rfl, rfl, hm'.1, hm'.2, ?_⟩)))
+          intro k' hk'
+          rw [(stripOla_spec k k').2 hk'] at hk
+          simp at hk
+      · simp at h
+
+/-- **C09.5i** and nothing else is refused: integer `size`, `hop` omitted or an integer `≤ size`,
+every keyword one of the eight names or an `ola_` option (those only with a strategy) — the wrapper
+goes on to `blk_gen`.  With `stft_plan_checks` this characterises the accepted keyword sets. -/
+theorem stft_plan_accepts (kwparams kwargs : Dict) (s : Int) :
+    ∀ merged, merged = dictUpdate kwparams kwargs →
+    dictGet merged "size" = some (.int s) →
+    (dictGet merged "hop" = none ∨ ∃ hh, dictGet merged "hop" = some (.int hh) ∧ hh ≤ s) →
+    (∀ kv ∈ merged,
+        kv.1 ∈ ["size", "hop", "wnd", "ola", "transform", "inverse_transform", "before", "after"] ∨
+        ((∃ k', kv.1 = "ola_" ++ k') ∧ dictGet merged "ola" ≠ some .none)) →
+    ∃ plan, stftPlan kwparams kwargs = .ok plan := by
+  intro merged hm hsz hhop hkeys
+  cases hp : stftPlan kwparams kwargs with
+  | ok plan => exact ⟨plan, rfl⟩
+  | error e =>
+    exfalso
+    rcases stft_plan_rejects kwparams kwargs e hp merged hm with
+      ⟨_, h1, _⟩ | ⟨_, _, hh, s', h1, h2, h3⟩ | ⟨_, _, h1⟩ | ⟨k, v, k', _, _, hm', hk, ho⟩ | ⟨k, v, _, _, hm', hk, hk'⟩
+    · rw [h1] at hsz; simp at hsz
+    · rw [hsz] at h2
+      simp only [Option.some.injEq, PV.int.injEq] at h2
+      subst h2
+      rcases hhop with h | ⟨hh', h, hle⟩
+      · rw [h] at h1; simp at h1
+      · rw [h] at h1
+        simp only [Option.some.injEq, PV.int.injEq] at h1
+        omega
+    · rcases hhop with h | ⟨hh', h, _⟩ <;> rw [h] at h1 <;> simp at h1
+    · rcases hkeys (k, v) hm' with h | ⟨_, h⟩
+      · subst hk
+        simp only [List.mem_cons, List.not_mem_nil, or_false] at h
+        have hs : stripOla ("ola_" ++ k') = some k' := (stripOla_spec _ _).2 rfl
+        rcases h with h | h | h | h | h | h | h | h <;> rw [h] at hs <;>
+          simp [strip_size, strip_hop, strip_wnd, strip_ola, strip_tr, strip_itr, strip_bef, strip_aft] at hs
+      · exact h ho
+    · rcases hkeys (k, v) hm' with h | ⟨⟨k', h⟩, _⟩
+      · exact hk h
+      · exact hk' k' h
+
+end r4_plan
+
+/-- non-vacuity of the rejection / acceptance theorems -/
+example : ∃ plan, stftPlan [("size", .int 4), ("ola_wnd", .obj "w")] [("hop", .int 4), ("after", .none)] = .ok plan := by
+  refine stft_plan_accepts _ _ 4 _ rfl (by decide) (Or.inr ⟨4, by decide, by decide⟩) ?_
+  intro kv hkv
+  have e : dictUpdate [("size", PV.int 4), ("ola_wnd", PV.obj "w")] [("hop", PV.int 4), ("after", PV.none)] =
+      [("size", .int 4), ("ola_wnd", .obj "w"), ("hop", .int 4), ("after", .none)] := by decide
+  rw [e] at hkv ⊢
+  simp only [List.mem_cons, List.not_mem_nil, or_false] at hkv
+  rcases hkv with rfl | rfl | rfl | rfl
+  · left; decide
+  · right; exact ⟨⟨"wnd", by decide⟩, by decide⟩
+  · left; decide
+  · left; decide
+example : stftPlan [("size", .int 4)] [("hop", .none)] = .error .hopNotComparable := by decide
+example : (stftPlan [("size", .int 4), ("wnd", .obj "w")] [("ola_wnd", .obj "v")]).toOption.map (·.blkParams)
+    = some [("size", .int 4), ("hop", .none), ("wnd", .obj "w"), ("transform", notSpecified),
+            ("inverse_transform", notSpecified), ("before", notSpecified), ("after", notSpecified)] := by decide
+
+section r4_zero
+variable {K : Type} [Field K] [LT K] [DecidableLT K] [DecidableEq K]
+
+/-- **C09.1, m = 0**: zero blocks and a declared `size`: the `m*hop + size - hop` samples of the
+length clause are the `size - hop` samples of the flush, all zero — for every window object that
+resolves, normalisation on or off (`list(overlap_add.list([], size=4, hop=1)) == [0.0]*3`). -/
+theorem ola_zero_blocks (size hop : Nat) (hs : 0 < size) (h0 : 0 < hop) (hh : hop ≤ size)
+    (hop? : Option Nat) (hhop : hop?.getD size = hop) (p : PyWnd K) (normalize : Bool)
+    (w? : Option (List K)) (hres : resolveOlaObj size p = .ok w?)
+    (hw : ∀ w, w? = some w → w.length = size) :
+    (overlapAddListObj ([] : List (List K)) (some size) hop? p normalize).out =
+        List.replicate (0 * hop + size - hop) 0 ∧
+    (overlapAddListObj ([] : List (List K)) (some size) hop? p normalize).err = none := by
+  have h := (ola_obj_eq_spec size hop hs h0 hh ([] : List (List K)) (by simp) (some size) hop? rfl hhop p
+    normalize).1 w? hres hw
+  rw [olaSpec_nil] at h
+  simpa using h
+
+/-- **C09.1, the length clause for window objects**: exactly `m*hop + size - hop` samples for every
+`m ≥ 0` (the size declared, or read from the first block when there is one). -/
+theorem ola_obj_out_length (size hop : Nat) (hs : 0 < size) (h0 : 0 < hop) (hh : hop ≤ size)
+    (Bs : List (List K)) (hB : ∀ B ∈ Bs, B.length = size)
+    (size? hop? : Option Nat) (hsz : detectSize size? Bs = some size) (hhop : hop?.getD size = hop)
+    (p : PyWnd K) (normalize : Bool) (w? : Option (List K)) (hres : resolveOlaObj size p = .ok w?)
+    (hw : ∀ w, w? = some w → w.length = size) :
+    (overlapAddListObj Bs size? hop? p normalize).out.length = Bs.length * hop + size - hop := by
+  rw [((ola_obj_eq_spec size hop hs h0 hh Bs hB size? hop? hsz hhop p normalize).1 w? hres hw).1, ola_length]
+  omega
+
+/-- **C09.3 for window objects, in the indexed words of C08**: the covered samples are those below
+`m*hop` for `m` = the number of blocks of the closed form (`nFull` complete ones plus the padded
+tail) — what the driver evaluates as `covered`. -/
+theorem ola_obj_blocks_inverse (size hop : Nat) (hs : 0 < size) (h0 : 0 < hop) (hd : hop ∣ size)
+    (x : List K) (p : PyWnd K) (w? : Option (List K)) (hres : resolveOlaObj size p = .ok w?)
+    (hw : ∀ w, w? = some w → w.length = size) (normalize : Bool)
+    (cola : ∀ j, j < hop → sumTo (size / hop) (fun i =>
+        gainSpec size hop normalize w? * (wndSpec size w?).getD (j + i * hop) 0) = 1)
+    (n : Nat) (hn1 : size - hop ≤ n) (hn2 : n < (blocksClosed size hop 0 x).length * hop) :
+    (overlapAddListObj (blocks size hop 0 x) (some size) (some hop) p normalize).out.getD n 0
+      = x.getD n 0 := by
+  rw [overlapAddListObj_eq _ (some size) (some hop) p normalize size rfl w? hres]
+  exact ola_blocks_inverse size hop hs h0 hd x (ofResolved w?) w? (resolveWnd_ofResolved size w?) hw
+    normalize cola n hn1 (by rw [ALV.Props.C08.blocks_eq_closed size hop hs h0]; exact hn2)
+
+/-- **C09.4, m = 0**: the wrapper on a signal of at most `size - hop` samples (the empty one
+included).  `Stream.blocks` forms no block — and only then —, no processing step is called
+whatever the steps are, and the overlap-add (declared size) still yields the `size - hop` zeros. -/
+theorem stft_short_signal (size hop : Nat) (hs : 0 < size) (h0 : 0 < hop) (hh : hop ≤ size)
+    (hop? : Option Nat) (hhop : hop?.getD size = hop)
+    (wa : PyWnd K) (wa? : Option (List K)) (hwa : resolveStftObj size wa = .ok wa?) (st : Stages K)
+    (c : OlaCallObj K) (hcs : c.size? = some size) (hch : c.hop?.getD size = hop)
+    (ws? : Option (List K)) (hws : resolveOlaObj size c.wnd = .ok ws?)
+    (hwl : ∀ w, ws? = some w → w.length = size) (x : List K) :
+    (blocks size hop (0 : K) x = [] ↔ x.length ≤ size - hop) ∧
+    (x.length ≤ size - hop →
+      (stftRunObj false size hop? wa st (some c) x).out = List.replicate (size - hop) 0 ∧
+      (stftRunObj false size hop? wa st (some c) x).err = none ∧
+      blkGenTraceObj size hop? wa st x = []) := by
+  have hiff : blocks size hop (0 : K) x = [] ↔ x.length ≤ size - hop := by
+    rw [ALV.Props.C08.blocks_eq_closed size hop hs h0]
+    constructor
+    · intro hb
+      by_cases hx : x.length ≤ size - hop
+      · exact hx
+      · exact absurd hb (blocksClosed_nonempty size hop 0 x (by omega))
+    · exact blocksClosed_short size hop h0 hh 0 x
+  refine ⟨hiff, fun hx => ?_⟩
+  have hb := hiff.2 hx
+  have hz := ola_zero_blocks size hop hs h0 hh c.hop? hch c.wnd c.normalize ws? hws hwl
+  simp only [stftRunObj, blkGenObj, blkGenTraceObj, hwa, hhop, hb, List.map_nil, overlapAddFromObj,
+    Bool.false_eq_true, if_false, hcs]
+  refine ⟨?_, hz.2, trivial⟩
+  simpa using hz.1
+
+end r4_zero
+
+/-- non-vacuity: zero blocks for hop < size, and a one-sample signal that forms no block -/
+example : (overlapAddListObj ([] : List (List ℚ)) (some 4) (some 1) .none true).out = [0, 0, 0] := by
+  decide +kernel
+example : (stftRunObj false 4 (some 2) (.none : PyWnd ℚ) ⟨none, none, id, none, none⟩
+    (some ⟨some 4, some 2, .none, true⟩) [3]).out = [0, 0] := by decide +kernel
+
+section r4_hist
+
+/-- **C09.6b** histories of the partial / decorator forms.  `p = stft(**kw)`, `p' = p(**kw')`,
+`proc = p(func, **kw')`, `@p`, `stft(func, **kw)` in ANY order and any number of times:
+* (immutability) whatever is derived later — from the same partial or any other —, every partial
+  and every processor that exists keeps the options record it was created with;
+* (own path) that record is the merge of the keyword dicts on its OWN path back to `stft`
+  (`stftDefaults` of that path, later levels win: `stft_styles`), so a processor built from a
+  partial uses the partial's defaults as they were given, never a keyword of a sibling derivation. -/
+theorem stft_partial_histories (ops more : List POp) :
+    (∀ i, i < (runOps ops).partials.length →
+      (runOps (ops ++ more)).partials[i]? = (runOps ops).partials[i]?) ∧
+    (∀ j, j < (runOps ops).procs.length →
+      (runOps (ops ++ more)).procs[j]? = (runOps ops).procs[j]?) ∧
+    (runOps ops).partials = (runChains ops).partials.map stftDefaults ∧
+    (runOps ops).procs = (runChains ops).procs.map stftDefaults := by
+  obtain ⟨⟨t, ht⟩, ⟨u, hu⟩⟩ := runOps_append_prefix ops more
+  refine ⟨?_, ?_, (runOps_eq_chains ops).1, (runOps_eq_chains ops).2⟩
+  · intro i hi
+    rw [ht, List.getElem?_append_left hi]
+  · intro j hj
+    rw [hu, List.getElem?_append_left hj]
+
+/-- what one more event does to the paths: a new partial starts a path, a derivation extends the
+path of ITS parent by its own keywords, a processor likewise; no other path changes. -/
+theorem stft_partial_paths (ops : List POp) (i : Nat) (kw : Dict) :
+    (runChains (ops ++ [.new kw])).partials = (runChains ops).partials ++ [[kw]] ∧
+    (runChains (ops ++ [.derive i kw])).partials =
+      (runChains ops).partials ++ [(runChains ops).partials.getD i [] ++ [kw]] ∧
+    (runChains (ops ++ [.build i kw])).procs =
+      (runChains ops).procs ++ [(runChains ops).partials.getD i [] ++ [kw]] ∧
+    (runChains (ops ++ [.build i kw])).partials = (runChains ops).partials ∧
+    (runChains (ops ++ [.direct kw])).procs = (runChains ops).procs ++ [[kw]] := by
+  simp only [runChains_snoc, cstep, and_self]
+
+end r4_hist
+
+/-- non-vacuity, and what the theorem excludes: in the history `p = stft(size=4); a = p(f, hop=1);
+b = p(f)` processor `b` has no `hop`; a machine that updates the partial in place gives it `hop=1`. -/
+example : (runOps [.new [("size", .int 4)], .build 0 [("hop", .int 1)], .build 0 []]).procs
+    = [[("size", .int 4), ("hop", .int 1)], [("size", .int 4)]] := by decide
+example : (runOpsMut [.new [("size", .int 4)], .build 0 [("hop", .int 1)], .build 0 []]).procs
+    = [[("size", .int 4), ("hop", .int 1)], [("size", .int 4), ("hop", .int 1)]] := by decide
+example : (runChains [.new [("size", .int 4)], .derive 0 [("hop", .int 2)], .build 0 [], .build 1 [("wnd", .none)]]).procs
+    = [[[("size", .int 4)], []], [[("size", .int 4)], [("hop", .int 2)], [("wnd", .none)]]] := by decide
+
+section r4_opaque
+variable {K : Type} [Field K] [LT K] [DecidableLT K] [DecidableEq K]
+
+/-- **C09.7f** window items that are not numbers (a list of parameter tuples, of strings …):
+`list(wnd)` succeeds, so nothing is raised before the first ARITHMETIC on an item.
+With normalisation that is `abs(item)`: TypeError at the first `next`.  Without normalisation the
+length check comes first (ValueError "Incompatible window size" for `n ≠ size`); then the first
+block that has an item raises the TypeError before any sample when `hop < size` (the first addition
+to the memory; for `hop = size` nothing is ever added and the outcome depends on the Python type of
+the samples — outside the model) — and with ZERO blocks nothing is ever computed: the `size - hop` zeros of the length clause, no exception.  (Round 3 had modelled
+"TypeError at once" here; the zero-block case showed the real code does not.) -/
+theorem ola_opaque_window (size hop : Nat) (h0 : 0 < hop) (Bs : List (List K))
+    (size? hop? : Option Nat) (hsz : detectSize size? Bs = some size) (hhop : hop?.getD size = hop)
+    (o : WObj K) (n : Nat) (hc : callStep size o = .iterable (.opaque (n + 1))) :
+    overlapAddListObj Bs size? hop? (.obj o) true = ⟨[], some .windowItems⟩ ∧
+    (n + 1 ≠ size → overlapAddListObj Bs size? hop? (.obj o) false = ⟨[], some .windowSize⟩) ∧
+    (n + 1 = size → Bs = [] →
+      (overlapAddListObj Bs size? hop? (.obj o) false).out = List.replicate (size - hop) 0 ∧
+      (overlapAddListObj Bs size? hop? (.obj o) false).err = none) ∧
+    (n + 1 = size → hop < size → ∀ b rest, Bs = b :: rest → b ≠ [] →
+      overlapAddListObj Bs size? hop? (.obj o) false = ⟨[], some .windowItems⟩) := by
+  have hop0 : hop ≠ 0 := by omega
+  have hoi : opaqueItems size (.obj o : PyWnd K) = some (n + 1) := by simp [opaqueItems, hc]
+  refine ⟨?_, ?_, ?_, ?_⟩
+  · simp [overlapAddListObj, hsz, hhop, hoi, olaOpaque, hop0]
+  · intro hne
+    simp [overlapAddListObj, hsz, hhop, hoi, olaOpaque, hne]
+  · intro he hB
+    subst hB
+    simp only [overlapAddListObj, hsz, hhop, hoi, olaOpaque, he, Bool.false_eq_true, if_false,
+      ne_eq, not_true_eq_false, and_true]
+    rw [pyDrop_nat]
+    simp [List.drop_replicate]
+  · intro he _ b rest hB hb
+    subst hB
+    have : b.isEmpty = false := by cases b <;> simp_all
+    simp [overlapAddListObj, hsz, hhop, hoi, olaOpaque, he, this]
+
+end r4_opaque
+
+/-- non-vacuity: a tuple of parameter tuples as `wnd` -/
+example : (overlapAddListObj ([] : List (List ℚ)) (some 3) (some 1)
+    (.obj (WKind.pyTuple.mk (fun _ => .other) (.opaque 3))) false).out = [0, 0] := by decide +kernel
+example : (overlapAddListObj ([[1, 2, 3]] : List (List ℚ)) (some 3) (some 1)
+    (.obj (WKind.pyTuple.mk (fun _ => .other) (.opaque 3))) false).err = some .windowItems := by decide +kernel
+
+section r4_tables
+variable {K : Type}
+
+/-- the exception classes and the tags by which the tie tells the errors of `overlap_add.list`
+apart (a finite table): the two ValueErrors with a message of the code, `max()` of nothing; the two
+TypeErrors; distinct errors have distinct tags. -/
+theorem err_table (e e' : Err) :
+    (e.tag = e'.tag → e = e') ∧
+    (e.kind = "ValueError" ↔ e = .windowSize ∨ e = .blockSize ∨ e = .maxEmpty) ∧
+    (e.kind = "TypeError" ↔ e = .windowType ∨ e = .windowItems) ∧
+    (e.kind = "ImportError" ↔ e = .numpyMissing) := by
+  cases e <;> cases e' <;> decide
+
+/-- the tags by which the tie tells the wrapper's rejections apart determine the rejection,
+the offending keyword included -/
+theorem plan_err_tags (e e' : PlanErr) : e.tag = e'.tag → e = e' := PlanErr.tag_inj e e'
+
+/-- the kind names the tie uses name the kinds (the driver's `ofName` finds the kind back) -/
+theorem wkind_names (k : WKind) : WKind.ofName k.name = some k := by
+  cases k <;> decide
+
+/-- `overlap_add(…)` / `overlap_add.numpy(…)` in an interpreter without numpy: `import numpy` is the
+first statement of the generator — an ImportError at the first `next`, no sample.  (A fact about
+the sandbox, kept as a theorem so that the tie's expectation is a stated one.) -/
+theorem ola_numpy_absent :
+    (overlapAddNumpyAbsent : Out K).out = [] ∧
+    (overlapAddNumpyAbsent : Out K).err = some .numpyMissing ∧
+    Err.kind .numpyMissing = "ImportError" := ⟨rfl, rfl, rfl⟩
+
+/-- a keyword VALUE used as a window (`wnd=` / `ola_wnd=` of the wrapper): `None` is "no window";
+an integer is an object that is neither callable nor iterable — TypeError in both resolutions; a
+named object is itself. -/
+theorem pv_window (env : String → Option (WObj K)) (size : Nat) (i : Int) (t : String) :
+    pvWnd env .none = some .none ∧
+    (∃ p, pvWnd env (.int i) = some p ∧ resolveOlaObj size p = .error .windowType ∧
+      resolveStftObj size p = .error .windowType) ∧
+    pvWnd env (.obj t) = (env t).map .obj :=
+  ⟨rfl, ⟨_, rfl, rfl, rfl⟩, rfl⟩
+
+end r4_tables
 
 end ALV.Props.C09
 
